@@ -52,6 +52,13 @@ CLAIMED = {
         "dropped size is definitely undetermined.",
         "DESIGN.md §4 C13",
     ),
+    "C17": (
+        "property-based testing over pairs of axis-length assignments: AST whitelist + integer-masked AST equality of the generated code (Hypothesis)",
+        "Generated-input search over descriptions, backends and rescalings of all axis lengths > 1 (up to 64): the emitted source must stay within a whitelist of "
+        "straight-line AST node kinds and must be identical up to integer literals across rescalings that preserve the length-1 pattern. Compilation only. Exploration only.",
+        "Trusted: Python's ast module. numpy-family backends only (no vmap-style nested functions are produced here).",
+        "DESIGN.md §4 C17",
+    ),
 }
 NOT_YET = "check not built yet in this round (see DESIGN.md §8 build order); the property has an executable oracle and will be claimed once its check is registered"
 
